@@ -11,7 +11,9 @@ package eng
 //            order (p1,p2,p3 = indices.At(t), At(t+1), At(t+2)): the winding convention that makes normals
 //            point to the outer side;
 //   NEIGH-3  every value parameter reaches a stored element, a store index or a loop bound;
-//   NEIGH-4  (Laplacian) the neighbour lookup and the neighbour count of an update use the index being updated.
+//   NEIGH-4  (Laplacian) the neighbour lookup and the neighbour count of an update use the index being updated;
+//   NEIGH-5  (Laplacian) an update is computed from the working array only — it never reads the input attribute
+//            again, so iteration k starts from the result of iteration k−1 ("iterations" compose).
 
 import (
 	"go/token"
@@ -237,6 +239,15 @@ func AnalyseNeighbourOp(fn *ssa.Function, spec NeighSpec, cfg ShapeConfig) Shape
 				continue
 			}
 			res.add("NEIGH-4", bad == 0, st, map[bool]string{true: "neighbour lookup and count use the index being updated", false: "a neighbour lookup / count uses a different index than the vertex being updated"}[bad == 0])
+			orig := 0
+			for d := range backward(st.Val, true) {
+				if call, ok := d.(*ssa.Call); ok && srcIter != nil {
+					if rd, ok := readOf(call); ok && sameSource(rd.src, srcIter) {
+						orig++
+					}
+				}
+			}
+			res.add("NEIGH-5", orig == 0, st, map[bool]string{true: "the update reads the working array only: every iteration continues from the previous one", false: "the update reads the input attribute again: every iteration restarts from the original values instead of the previous iteration's"}[orig == 0])
 		}
 	}
 	return res
